@@ -77,6 +77,9 @@ class _BitPaddedMixin(object):
     @staticmethod
     def to_str(value: int, bits: int = 7, bigendian: bool = True,
                width: int = 4, minwidth: int = 4) -> bytes:
+        if value < 0:
+            raise ValueError('Value must not be negative')
+
         mask = (1 << bits) - 1
 
         if width != -1:
